@@ -22,6 +22,24 @@ fn fma(x: f64, y: f64, z: f64) -> f64 {
 /// Renormalization ensures that the components of the returned tuple are arranged in such a
 /// way that the absolute value of the last component is no more than half the ULP of the
 /// first.
+#[cfg(feature = "verif_hooks")]
+pub(crate) fn verif_fma(x: f64, y: f64, z: f64) -> f64 {
+    fma(x, y, z)
+}
+
+#[cfg(all(
+    feature = "verif_hooks",
+    feature = "std",
+    not(all(windows, target_env = "gnu"))
+))]
+pub(crate) const VERIF_FMA_BACKEND: &str = "std::mul_add";
+
+#[cfg(all(
+    feature = "verif_hooks",
+    not(all(feature = "std", not(all(windows, target_env = "gnu"))))
+))]
+pub(crate) const VERIF_FMA_BACKEND: &str = "libm::fma";
+
 #[inline]
 pub fn renorm3(a: f64, b: f64, c: f64) -> TwoFloat {
     let u = fast_two_sum(a, b);
